@@ -70,6 +70,8 @@ def main(argv=None):
         _unresolvable_names(ctx, pid)
         from .rules.memo import memo_rules
         memo_rules(ctx, pid)
+        from .rules.pitfalls import pitfall_rules
+        pitfall_rules(ctx, pid)
         try:
             mod.run(ctx)
         except AnalysisError as e:
